@@ -32,6 +32,9 @@ pub enum Late {
 #[derive(Clone, Debug, Serialize, Deserialize, PartialEq)]
 pub struct Arrival {
     pub ts: u64,
+    /// which of the sources emitted it (the event carries the source's name and a type of its own)
+    #[serde(default)]
+    pub src: u8,
     /// processing-time clock movement before this arrival, ms (negative: the clock steps back)
     pub clock_adv: i64,
 }
@@ -50,10 +53,10 @@ pub struct WatermarkWorld;
 
 const CLOCK_BASE_MS: u64 = 1_700_000_000_000;
 
-fn mk_event(i: usize, ts: u64) -> StreamEvent {
+fn mk_event(i: usize, ts: u64, src: u8) -> StreamEvent {
     let mut data = HashMap::new();
     data.insert("n".to_string(), Value::Integer(i as i64));
-    let mut e = StreamEvent::with_timestamp("E", data, "src", ts);
+    let mut e = StreamEvent::with_timestamp(if src % 2 == 0 { "E" } else { "F" }, data, format!("src{src}"), ts);
     e.id = format!("e{i}");
     e
 }
@@ -91,6 +94,7 @@ impl World for WatermarkWorld {
                 "fault.reordered_arrival",
                 "probe.delay_or_lateness_bound_of_a_second_or_more",
                 "probe.stream_of_more_than_1024_arrivals",
+                "probe.events_of_two_sources",
             ],
             quick_runs: 1_500_000,
             thorough_runs: 40_000_000,
@@ -115,7 +119,7 @@ impl World for WatermarkWorld {
         let n = 1 + rng.usize(12);
         let ts_max = *rng.pick(&[5u64, 12, 30]);
         let nsrc = 1 + rng.usize(2);
-        let mut msgs: Vec<(u64, u64, u64)> = Vec::new(); // (arrival time, seq, ts)
+        let mut msgs: Vec<(u64, u64, u64, u8)> = Vec::new(); // (arrival time, seq, ts, source)
         let mut seq = 0;
         let net_mode = rng.usize(4); // 0 in-order, 1 small jitter, 2 heavy jitter, 3 reversed
         for s in 0..nsrc {
@@ -130,11 +134,11 @@ impl World for WatermarkWorld {
                     2 => rng.below(ts_max + 5),
                     _ => 2 * (ts_max - ts),
                 };
-                msgs.push((ts + delay, seq, ts));
+                msgs.push((ts + delay, seq, ts, s as u8));
                 seq += 1;
                 if rng.chance(1, 12) && msgs.len() < 12 {
                     // duplication: a second message with its own id
-                    msgs.push((ts + delay + rng.below(3), seq, ts));
+                    msgs.push((ts + delay + rng.below(3), seq, ts, s as u8));
                     seq += 1;
                 }
             }
@@ -144,8 +148,9 @@ impl World for WatermarkWorld {
         let clock_mode = rng.usize(4); // 0 steady, 1 stalls, 2 jumps incl. backwards, 3 frozen
         let arrivals = msgs
             .iter()
-            .map(|(_, _, ts)| Arrival {
+            .map(|(_, _, ts, src)| Arrival {
                 ts: *ts,
+                src: *src,
                 clock_adv: match clock_mode {
                     0 => rng.range(1, 3),
                     1 => *rng.pick(&[0i64, 0, 1, 2]),
@@ -159,9 +164,9 @@ impl World for WatermarkWorld {
         // that only matter after a thousand events
         let arrivals: Vec<Arrival> = if rng.chance(1, 400) {
             let n = 1030 + rng.usize(270);
-            let mut v = vec![Arrival { ts: 40, clock_adv: 1 }];
+            let mut v = vec![Arrival { ts: 40, src: 0, clock_adv: 1 }];
             for _ in 0..n {
-                v.push(Arrival { ts: if rng.chance(1, 8) { 40 + rng.below(6) } else { rng.below(36) }, clock_adv: 1 });
+                v.push(Arrival { ts: if rng.chance(1, 8) { 40 + rng.below(6) } else { rng.below(36) }, src: rng.below(2) as u8, clock_adv: 1 });
             }
             v
         } else {
@@ -204,6 +209,9 @@ impl World for WatermarkWorld {
         };
         let mut s = WatermarkedStream::new(strat, late);
         obs.faulty = t.arrivals.iter().any(|a| a.clock_adv <= 0) || !t.tick_pattern.is_empty();
+        if t.arrivals.iter().any(|a| a.src != t.arrivals[0].src) {
+            obs.count("probe.events_of_two_sources");
+        }
         if t.arrivals.len() > 1024 {
             obs.count("probe.stream_of_more_than_1024_arrivals");
         }
@@ -243,7 +251,7 @@ impl World for WatermarkWorld {
             if wm_before != m_wm {
                 return Err(Violation::new(PROP, "harness.model-sync", SITE, "model-out-of-sync", format!("model watermark {m_wm} != observed {wm_before} before step {i}"), i));
             }
-            let r = s.add_event(mk_event(i, a.ts));
+            let r = s.add_event(mk_event(i, a.ts, a.src));
             if let Err(e) = r {
                 return Err(Violation::new(PROP, "conserve.once", SITE, "add-event-error", format!("add_event returned Err({e}) for an ordinary event"), i));
             }
